@@ -104,33 +104,29 @@ def handler_table(ctx) -> Dict[str, str]:
     if chain is None:
         raise AnalysisError("_execute_command: `command.mnemonic in self._instruction_handlers` dispatch not found")
     arms = []  # (set of classes, handler name or None)
-
-    def parse_arm(st):
-        tests = st.test.values if isinstance(st.test, ast.BoolOp) and isinstance(st.test.op, ast.Or) else [st.test]
-        classes = []
-        for t in tests:
-            if isinstance(t, ast.Call) and dotted(t.func) == "isinstance" and len(t.args) == 2:
-                c = repo.resolve_class(ex.module, t.args[1])
-                if c is None:
-                    raise AnalysisError(f"_execute_command: cannot resolve {src(t.args[1])}")
-                classes.append(c)
+    # every call of a _handle_* method is one arm; the classes it serves are read from the facts that hold where it is called
+    # (isinstance tests of the enclosing / preceding branches), whatever style the chain is written in
+    for c in A.calls_in(exc):
+        if not (isinstance(c.func, ast.Attribute) and A.is_self_attr(c.func) and c.func.attr.startswith("_handle_")):
+            continue
+        pos_classes, neg = [], 0
+        for t, pol in G.path_conditions(exc, c):
+            lits = t.values if isinstance(t, ast.BoolOp) and isinstance(t.op, ast.Or) else [t]
+            if not all(isinstance(x, ast.Call) and dotted(x.func) == "isinstance" and len(x.args) == 2 and A.norm(x.args[0]) == cmdp for x in lits):
+                continue
+            if pol:
+                pos_classes = []  # the innermost (latest) positive test is the arm's own; earlier ones are general guards
+                for x in lits:
+                    k = repo.resolve_class(ex.module, x.args[1])
+                    if k is None:
+                        raise AnalysisError(f"_execute_command: cannot resolve {src(x.args[1])}")
+                    pos_classes.append(k)
             else:
-                raise AnalysisError(f"_execute_command: unrecognised dispatch test {src(t)}")
-        h = None
-        for c in A.calls_in(st.body[0]) if st.body else []:
-            if isinstance(c.func, ast.Attribute) and A.is_self_attr(c.func) and c.func.attr.startswith("_handle_"):
-                h = c.func.attr
-        for s2 in st.body:
-            for c in A.calls_in(s2):
-                if isinstance(c.func, ast.Attribute) and A.is_self_attr(c.func) and c.func.attr.startswith("_handle_"):
-                    h = c.func.attr
-        arms.append((classes, h))
-        if len(st.orelse) == 1 and isinstance(st.orelse[0], ast.If):
-            parse_arm(st.orelse[0])
-
-    if len(chain.orelse) == 1 and isinstance(chain.orelse[0], ast.If):
-        parse_arm(chain.orelse[0])
-    else:
+                neg += 1
+        if not pos_classes:
+            raise AnalysisError(f"_execute_command: the call of {c.func.attr} is not under an isinstance test of the command")
+        arms.append((pos_classes, c.func.attr))
+    if not arms:
         raise AnalysisError("_execute_command: isinstance dispatch chain not found")
     result = {}
     for c in I.core_instructions(repo):
@@ -642,18 +638,17 @@ def check_predicates(ctx):
     params = A.param_names(fn)
     pa, pb, pm = params[2], params[3], params[4]
     arms = {}
-    cur = fn.body[-1] if fn.body else None
-    for st in fn.body:
-        if isinstance(st, ast.If):
-            cur = st
-    while isinstance(cur, ast.If):
-        t = cur.test
-        if isinstance(t, ast.Call) and dotted(t.func) == "isinstance":
-            c = repo.resolve_class(ex.module, t.args[1])
-            rr = [s for s in cur.body if isinstance(s, ast.Return)]
-            if c is not None and rr:
-                arms[I.field_default(repo, ev, c, "mnemonic")] = rr[0].value
-        cur = cur.orelse[0] if len(cur.orelse) == 1 else None
+    # every `return <expr>` reached under a positive isinstance test of the instruction is the arm of that class (any chain style)
+    pinstr = params[1]
+    for r_ in A.returns(fn):
+        if r_.value is None:
+            continue
+        for t, pol in reversed(G.path_conditions(fn, r_)):
+            if pol and isinstance(t, ast.Call) and dotted(t.func) == "isinstance" and len(t.args) == 2 and A.norm(t.args[0]) == pinstr:
+                c = repo.resolve_class(ex.module, t.args[1])
+                if c is not None:
+                    arms[I.field_default(repo, ev, c, "mnemonic")] = r_.value
+                break
     refa = {"add": lambda a, b, m: a + b, "sub": lambda a, b, m: a - b, "addm": lambda a, b, m: (a + b) % m, "subm": lambda a, b, m: (a - b) % m}
     for mn, f in refa.items():
         e = arms.get(mn)
